@@ -1054,6 +1054,10 @@ class Interp:
         if isinstance(v, LibObj) and v.kind == "local_dict" and v.heap is None and not v.py and fr.func is not None \
                 and len(s.targets) == 1 and isinstance(s.targets[0], ast.Name):
             lt = getattr(self.w.types, "LOCALS", {}).get((fr.func.qualname, s.targets[0].id))
+            top = getattr(self, "top", None)
+            if lt is None and top is not None and top is not fr.func:
+                # a helper extracted from the unit's function keeps the declared type of the local it took along
+                lt = getattr(self.w.types, "LOCALS", {}).get((top.qualname, s.targets[0].id))
             if lt is not None:
                 v.heap = self.alloc(lt)  # a local `{}` whose declared use is a symbolically keyed dict (A-TYPES)
         for t in s.targets:
